@@ -164,6 +164,7 @@ ext("C20", "", " A symlink or hard link to the configured file passed as path is
 # wave 8
 ext("C03", "; long-polling consumers", " Long poll (W-conc, SQLite): one caller waits for a message with max_wait 30 s while the other lets time pass and enqueues; the returned lease has to be the one a dequeue at the instant of the successful attempt gives (one reference dequeue per attempt).")
 ext("C05", "; long-polling consumers", " Long-polling callers as in C03: a waiting consumer is woken by the enqueue and gets the message, with a lease counted from that instant.")
+ext("C05", "; backward steps of the clock", " Store part: the clock the stores read also steps backwards (1 ms - 1 min): nothing is offered before its next_run_at or inside a live lease as the clock now reads, delays count from the clock reading of the call; SQLite's 10 ms sweep bound is suspended until the clock has caught up with the last sweep.")
 ext("C09", "; other traffic in volume between original and replay", " A flood of requests with fresh nonces (300-12000) between a request and its replay: the replay is still refused.")
 ext("C10", "", " Requests aim at near misses of wildcard host entries (bare domain, longer name without a dot boundary, the domain as a label of another name, trailing dot with port).")
 ext("C12", "; requests overtaking one another at the rate limiter", " Ingress races with a moving clock: a request that has read the time is overtaken at the limiter by one that read a later time; limiter times of racers are intervals [time read, instant of passage]; requests after the race see what the race did to the limiter's bookkeeping.")
